@@ -184,7 +184,7 @@ macro_rules! sizes {
     ($C:ty, $O:ty, $w:expr, $h:expr, $e:expr) => {
         sizes!(@arms $C, $O, ($w, $h, $e);
             (1, 1, 0), (3, 2, 0), (3, 2, 3), (7, 3, 0), (8, 2, 0), (9, 2, 0), (9, 2, 5), (13, 5, 0), (13, 5, 1),
-            (16, 1, 0), (17, 3, 0), (0, 2, 0), (3, 0, 2))
+            (16, 1, 0), (17, 3, 0), (0, 2, 0), (3, 0, 2), (67, 2, 1), (2, 9, 0))
     };
     (@arms $C:ty, $O:ty, $key:expr; $(($W:literal, $H:literal, $E:literal)),*) => {
         match $key {
